@@ -308,6 +308,33 @@ Definition run_from (s : option info) (h : list op) : option info :=
   fold_left (fun acc o => match acc with Some s => step s o | None => None end) h s.
 Definition run (h : list op) : option info := run_from (Some info_empty) h.
 
+(* ClusterState::perform_tablets_maintenance (state.rs): the caller derives the arguments of
+   TabletsInfo::perform_maintenance from the old and the new known nodes *)
+Definition derive_removed (old new : list node) : list N :=
+  map host (filter (fun o => negb (existsb (fun n => (host n =? host o)%N) new)) old).
+Definition derive_recreated (old new : list node) : list node :=
+  filter (fun n => existsb (fun o => (host o =? host n)%N && negb (node_eqb o n)) old) new.
+Definition refresh_op (kss : list ksdesc) (old new : list node) : op :=
+  Maintain kss (derive_removed old new) new (derive_recreated old new).
+
+(* histories as the cluster state produces them: payloads are resolved against the current
+   known nodes, every topology/schema refresh replaces the known nodes *)
+Inductive cop :=
+| CLearn (k : tkey) (a b : Z) (raw : list (N * Z))
+| CRefresh (kss : list ksdesc) (new : list node).
+Fixpoint cluster_ops (known : list node) (h : list cop) : list op :=
+  match h with
+  | [] => []
+  | CLearn k a b raw :: r => Learn k a b raw known :: cluster_ops known r
+  | CRefresh kss new :: r => refresh_op kss known new :: cluster_ops new r
+  end.
+Fixpoint cluster_known (known : list node) (h : list cop) : list node :=
+  match h with
+  | [] => known
+  | CLearn _ _ _ _ :: r => cluster_known known r
+  | CRefresh _ new :: r => cluster_known new r
+  end.
+
 (* what the table answers for a token *)
 Definition lookup_tablet (s : info) (k : tkey) (tok : Z) : option tablet :=
   match find_table s k with Some tb => tablet_for_token (tt_list tb) tok | None => None end.
